@@ -19,8 +19,8 @@ package keeper
 //@ func Keeper.OnRecvVSCPacket
 //@ let ch := old(k.GetProviderChannel(ctx))
 //@ let pend := old(k.GetPendingChanges(ctx))
-//@ requires !ch.1 || ch.0 == packet.DestinationChannel
-//@ requires len(packet.DestinationChannel) > 0
+//@ requires [W-ibc-routes-to-bound-channel] !ch.1 || ch.0 == packet.DestinationChannel
+//@ requires [W-ibc-channel-id-nonempty] len(packet.DestinationChannel) > 0
 //@ loop 1 invariant [height-kept] k.GetHeightValsetUpdateID(ctx, height + 1) == newChanges.ValsetUpdateId
 //@ loop 1 invariant [pending-kept] $AccumulateChanges.called && k.GetPendingChanges(ctx).1 && k.GetPendingChanges(ctx).0.ValidatorUpdates == $AccumulateChanges.ret
 //@ loop 1 invariant [channel-kept] k.GetProviderChannel(ctx).1 && k.GetProviderChannel(ctx).0 == packet.DestinationChannel
